@@ -413,6 +413,7 @@ func c03One(t *testing.T, run *c03Run) {
 	skipped := 0
 	var sched []string
 	var faultInfo rt.M
+	hist := map[string][][2]string{} // per task: the operations it has been suspended in front of
 	doStep := func(tk *rt.Task) bool {
 		label, kind := tk.Label, tk.Kind
 		before := map[string]uint64{}
@@ -422,6 +423,9 @@ func c03One(t *testing.T, run *c03Run) {
 		w.step++
 		ok := s.Step(tk)
 		sched = append(sched, tk.Name)
+		if tk.State == rt.Ready {
+			hist[tk.Name] = append(hist[tk.Name], [2]string{tk.Label, tk.Kind})
+		}
 		for n, c := range w.ctrs {
 			b0, b1 := counterStateBits(before[n]), counterStateBits(c.state.bits.Raw())
 			if (b1.locked() && !b0.locked()) || (!b1.locked() && !b0.locked() && b1.readers() == b0.readers()+1) {
@@ -495,15 +499,15 @@ func c03One(t *testing.T, run *c03Run) {
 			}
 			want := 1
 			fmt.Sscanf(parts[2], "%d", &want)
-			seen := 0
 			for n := 0; n < 400 && alive && s.Runnable(tk); n++ {
-				if tk.Steps > 0 && strings.Contains(tk.Label, parts[0]) && tk.Kind == parts[1] {
-					seen++
-					if seen >= want {
-						break
+				// how often has this task been suspended in front of such an operation so far?
+				seen := 0
+				for _, h := range hist[tk.Name] {
+					if strings.Contains(h[0], parts[0]) && h[1] == parts[1] {
+						seen++
 					}
 				}
-				if parts[0] == "done" && tk.State != rt.Ready {
+				if seen >= want && strings.Contains(tk.Label, parts[0]) && tk.Kind == parts[1] {
 					break
 				}
 				if !doStep(tk) {
